@@ -2,7 +2,7 @@
    Proofs/QCacheProofs.v, QCacheInv.v, QCacheEngine.v; model in Model/QCache.v.
    All distance comparisons are in sqrt-free squared form over exact rationals (see the "SQ:"
    comments of the model):  dist_le m q x w = "distance_m(q,x) <= w",  dist_lt = "... < w". *)
-From Coq Require Import QArith List NArith ZArith Bool Arith.
+From Coq Require Import QArith List NArith ZArith Bool Arith Sorting.Sorted.
 From Kyro Require Import Model.QCache Proofs.QCacheProofs Proofs.QCacheInv Proofs.QCacheEngine Proofs.QCacheKnn.
 Import ListNotations.
 Open Scope Q_scope.
@@ -19,12 +19,13 @@ Theorem C07_cauchy_schwarz : forall a b : vec, dot a b * dot a b <= sumsq a * su
 Proof. exact cauchy_schwarz. Qed.
 
 (* Every cached entry is valid after every sequential history, for each metric, relative to an
-   abstract exact k-NN oracle (premises O_live, O_len, O_omit) whose reported distances are
+   abstract exact k-NN oracle (premises O_live, O_len, O_sorted, O_omit) whose reported distances are
    related to vectors by an arbitrary relation isd. *)
 Theorem C07_entry_valid : forall (m : metric) (isd : vec -> vec -> Q -> Prop)
     (fresh_search : collection -> vec -> nat -> list result) (cfg : config),
   (forall c q k id d, In (id, d) (fresh_search c q k) -> exists v, c_get c id = Some v /\ isd q v d) ->
   (forall c q k, (length (fresh_search c q k) <= k)%nat) ->
+  (forall c q k, StronglySorted rle (fresh_search c q k)) ->
   (forall c q k id v, (1 <= k)%nat -> c_get c id = Some v -> ~ In id (map fst (fresh_search c q k)) ->
        length (fresh_search c q k) = k /\
        exists w, worst (fresh_search c q k) = Some w /\ dist_lt m q v w = false) ->
@@ -32,8 +33,8 @@ Theorem C07_entry_valid : forall (m : metric) (isd : vec -> vec -> Q -> Prop)
   let st := erun (pre_m m) (dist_le m) fresh_search cfg einit ops in
   In e (s_entries (e_cache st)) -> Valid (dist_lt m) isd (e_coll st) e.
 Proof.
-  intros m isd fs cfg O1 O2 O3.
-  exact (entry_valid (pre_m m) (dist_le m) (dist_lt m) isd fs cfg (pre_m_sound m) (dist_lt_le m) O1 O2 O3).
+  intros m isd fs cfg O1 O2 Os O3.
+  exact (entry_valid (pre_m m) (dist_le m) (dist_lt m) isd fs cfg (pre_m_sound m) (dist_lt_le m) O1 O2 Os O3).
 Qed.
 
 (* An engine cache hit is the k-prefix of a valid entry stored under the request's own scope with
@@ -42,6 +43,7 @@ Theorem C07_hit_valid : forall (m : metric) (isd : vec -> vec -> Q -> Prop)
     (fresh_search : collection -> vec -> nat -> list result) (cfg : config),
   (forall c q k id d, In (id, d) (fresh_search c q k) -> exists v, c_get c id = Some v /\ isd q v d) ->
   (forall c q k, (length (fresh_search c q k) <= k)%nat) ->
+  (forall c q k, StronglySorted rle (fresh_search c q k)) ->
   (forall c q k id v, (1 <= k)%nat -> c_get c id = Some v -> ~ In id (map fst (fresh_search c q k)) ->
        length (fresh_search c q k) = k /\
        exists w, worst (fresh_search c q k) = Some w /\ dist_lt m q v w = false) ->
@@ -51,8 +53,8 @@ Theorem C07_hit_valid : forall (m : metric) (isd : vec -> vec -> Q -> Prop)
   exists e, In e (s_entries (e_cache st)) /\ Valid (dist_lt m) isd (e_coll st) e /\
             e_scope e = scope /\ (k <= e_kreq e)%nat /\ r = firstn k (e_results e).
 Proof.
-  intros m isd fs cfg O1 O2 O3.
-  exact (hit_valid (pre_m m) (dist_le m) (dist_lt m) isd fs cfg (pre_m_sound m) (dist_lt_le m) O1 O2 O3).
+  intros m isd fs cfg O1 O2 Os O3.
+  exact (hit_valid (pre_m m) (dist_le m) (dist_lt m) isd fs cfg (pre_m_sound m) (dist_lt_le m) O1 O2 Os O3).
 Qed.
 
 (* Scope and k, on BOTH lookup paths of get_scoped, in every reachable cache state. *)
@@ -63,15 +65,9 @@ Theorem C07_scope : forall (cfg : config) (ops : list op) (scope : N) (q : vec) 
             r = firstn k (e_results e).
 Proof. exact served_scope_k. Qed.
 
-(* Full statement intended by DESIGN (C07_k_monotone): "an entry with k_req is used only for
-   k <= k_req, AND its k-prefix is itself valid", i.e. additionally
-     forall c e k, Valid dlt isd c e -> (k <= e_kreq e)%nat -> sorted-by-distance (e_results e) ->
-       Valid dlt isd c (mkEntry (e_scope e) (e_qkey e) (e_query e) k (firstn k (e_results e))).
-   Proved here: the first half, on both lookup paths (an entry is only used for k <= k_req and what
-   is served is exactly its k-prefix).  Missing: the second half; it needs two further premises
-   (the oracle returns results sorted by distance; dist_lt is monotone in the boundary and agrees
-   with the reported distances) that are not part of the model yet. *)
-Theorem C07_k_monotone_partial : forall (cfg : config) (ops : list op) (scope : N) (q : vec) (k : nat) (r : list result),
+(* both lookup paths of the cache: an entry is used only for k <= requested_k and exactly its
+   k-prefix is served *)
+Theorem C07_k_prefix_served : forall (cfg : config) (ops : list op) (scope : N) (q : vec) (k : nat) (r : list result),
   let s := run_state cfg empty ops in
   snd (get_scoped cfg s scope q k) = Some r ->
   exists e, In e (s_entries s) /\ (k <= e_kreq e)%nat /\ r = firstn k (e_results e).
@@ -79,6 +75,40 @@ Proof.
   intros cfg ops scope q k r s H. destruct (served_scope_k cfg ops scope q k r H) as [e [A [_ [B C]]]].
   exists e. auto.
 Qed.
+
+(* C07_k_monotone (full): an engine cache hit for k >= 1 uses an entry stored for k_req >= k, serves
+   exactly its k-prefix, and that k-prefix is itself a valid answer for k (Valid of the entry cut to
+   k: only live ids with their current reported distance, no live document strictly inside the
+   PREFIX's own boundary, the prefix full and sorted).  Oracle premises: exact k-NN (O_live, O_len,
+   O_omit), results sorted non-decreasingly by reported distance (O_sorted), and the reported
+   distance is the one the cache compares (a document reported at d is not strictly inside any
+   boundary w <= d).  Monotonicity of dist_lt in the boundary is proved (dist_lt_mono). *)
+Theorem C07_k_monotone : forall (m : metric) (isd : vec -> vec -> Q -> Prop)
+    (fresh_search : collection -> vec -> nat -> list result) (cfg : config),
+  (forall c q k id d, In (id, d) (fresh_search c q k) -> exists v, c_get c id = Some v /\ isd q v d) ->
+  (forall c q k, (length (fresh_search c q k) <= k)%nat) ->
+  (forall c q k, StronglySorted rle (fresh_search c q k)) ->
+  (forall c q k id v, (1 <= k)%nat -> c_get c id = Some v -> ~ In id (map fst (fresh_search c q k)) ->
+       length (fresh_search c q k) = k /\
+       exists w, worst (fresh_search c q k) = Some w /\ dist_lt m q v w = false) ->
+  (forall q v d w, isd q v d -> w <= d -> dist_lt m q v w = false) ->
+  forall (ops : list eop) (scope : N) (q : vec) (k : nat) (r : list result) (st' : estate),
+  let st := erun (pre_m m) (dist_le m) fresh_search cfg einit ops in
+  (1 <= k)%nat ->
+  estep (pre_m m) (dist_le m) fresh_search cfg st (ESearch scope q k) = (st', RHit r) ->
+  exists e, In e (s_entries (e_cache st)) /\ e_scope e = scope /\ (k <= e_kreq e)%nat /\
+            r = firstn k (e_results e) /\ Valid (dist_lt m) isd (e_coll st) e /\
+            Valid (dist_lt m) isd (e_coll st) (prefix_entry e k) /\ e_results (prefix_entry e k) = r.
+Proof.
+  intros m isd fs cfg O1 O2 Os O3 Hi.
+  exact (k_monotone (pre_m m) (dist_le m) (dist_lt m) isd fs cfg (pre_m_sound m) (dist_lt_le m)
+                    O1 O2 Os O3 (dist_lt_mono m) Hi).
+Qed.
+
+(* (b) of the above, on its own: "not strictly inside w" is monotone in the boundary *)
+Theorem C07_dist_lt_mono : forall (m : metric) (q v : vec) (w w' : Q),
+  dist_lt m q v w = false -> w' <= w -> dist_lt m q v w' = false.
+Proof. exact dist_lt_mono. Qed.
 
 (* One searcher, one writer, any interleaving: a result computed before a generation bump is never
    stored after it. *)
@@ -127,21 +157,49 @@ Proof. vm_compute. reflexivity. Qed.
 
 (* the oracle premises of C07_entry_valid / C07_hit_valid are satisfiable: an executable exact
    k-NN (insertion sort over the live documents, inner-product metric, isd q v d := d = 1 - <q,v>)
-   satisfies all three, so the theorem applies to it with no premise left *)
+   satisfies all of them (incl. sortedness and the distance link of C07_k_monotone), so the theorems
+   apply to it with no premise left *)
 Example C07_oracle_premises_satisfiable :
   (forall c q k id d, In (id, d) (ip_knn c q k) -> exists v, c_get c id = Some v /\ ip_isd q v d) /\
   (forall c q k, (length (ip_knn c q k) <= k)%nat) /\
+  (forall c q k, StronglySorted rle (ip_knn c q k)) /\
   (forall c q k id v, (1 <= k)%nat -> c_get c id = Some v -> ~ In id (map fst (ip_knn c q k)) ->
        length (ip_knn c q k) = k /\
-       exists w, worst (ip_knn c q k) = Some w /\ dist_lt InnerProduct q v w = false).
-Proof. split; [exact ip_knn_live|split; [exact ip_knn_len|exact ip_knn_omit]]. Qed.
+       exists w, worst (ip_knn c q k) = Some w /\ dist_lt InnerProduct q v w = false) /\
+  (forall q v d w, ip_isd q v d -> w <= d -> dist_lt InnerProduct q v w = false).
+Proof.
+  split; [exact ip_knn_live|]. split; [exact ip_knn_len|]. split; [exact ip_knn_sorted|].
+  split; [exact ip_knn_omit|exact ip_isd_lt].
+Qed.
 
 Corollary C07_entry_valid_ip : forall (cfg : config) (ops : list eop) (e : entry),
   let st := erun (pre_m InnerProduct) (dist_le InnerProduct) ip_knn cfg einit ops in
   In e (s_entries (e_cache st)) -> Valid (dist_lt InnerProduct) ip_isd (e_coll st) e.
 Proof.
-  intro cfg. exact (C07_entry_valid InnerProduct ip_isd ip_knn cfg ip_knn_live ip_knn_len ip_knn_omit).
+  intro cfg. exact (C07_entry_valid InnerProduct ip_isd ip_knn cfg ip_knn_live ip_knn_len ip_knn_sorted ip_knn_omit).
 Qed.
+
+Corollary C07_k_monotone_ip : forall (cfg : config) (ops : list eop) (scope : N) (q : vec) (k : nat)
+    (r : list result) (st' : estate),
+  let st := erun (pre_m InnerProduct) (dist_le InnerProduct) ip_knn cfg einit ops in
+  (1 <= k)%nat ->
+  estep (pre_m InnerProduct) (dist_le InnerProduct) ip_knn cfg st (ESearch scope q k) = (st', RHit r) ->
+  exists e, In e (s_entries (e_cache st)) /\ e_scope e = scope /\ (k <= e_kreq e)%nat /\
+            r = firstn k (e_results e) /\ Valid (dist_lt InnerProduct) ip_isd (e_coll st) e /\
+            Valid (dist_lt InnerProduct) ip_isd (e_coll st) (prefix_entry e k) /\
+            e_results (prefix_entry e k) = r.
+Proof.
+  intro cfg. exact (C07_k_monotone InnerProduct ip_isd ip_knn cfg ip_knn_live ip_knn_len ip_knn_sorted
+                                   ip_knn_omit ip_isd_lt).
+Qed.
+
+(* a hit for k = 1 served from an entry stored for k = 2: the hypotheses of C07_k_monotone_ip are met *)
+Example C07_k_monotone_nonvacuous :
+  let st := erun (pre_m InnerProduct) (dist_le InnerProduct) ip_knn sat_cfg einit
+                 [EInsert 1 [1; 0]; EInsert 2 [0; 1]; EInsert 3 [-1; 0]; ESearch 0 [1; 0] 2] in
+  snd (estep (pre_m InnerProduct) (dist_le InnerProduct) ip_knn sat_cfg st (ESearch 0 [1; 0] 1)) = RHit [(1%N, 0)] /\
+  map e_kreq (s_entries (e_cache st)) = [2%nat].
+Proof. vm_compute. auto. Qed.
 
 (* a concrete engine history in which an entry survives a far insert, is served as a hit, and is
    removed by a near insert *)
@@ -178,7 +236,9 @@ Print Assumptions C07_entry_valid.
 Print Assumptions C07_entry_valid_ip.
 Print Assumptions C07_hit_valid.
 Print Assumptions C07_scope.
-Print Assumptions C07_k_monotone_partial.
+Print Assumptions C07_k_prefix_served.
+Print Assumptions C07_k_monotone.
+Print Assumptions C07_k_monotone_ip.
 Print Assumptions C07_no_store_after_invalidate.
 Print Assumptions C07_hit_same_or_similar.
 Print Assumptions C07_old_quantisation_saturates.
